@@ -49,6 +49,7 @@ NEEDED = {
  'C05-8': 'liquidatee with two debt banks whose e-mode tables disagree, in both address orders',
  'C05-9': 'banks untouched for 180 days under heavy borrowing: eligibility judged at the share values the liquidation brings up to date',
  'C07-7': 'remaining collateral in a bank whose initial-margin value cap is exceeded thousands of times',
+ 'C19-8': "the reference keeps its own ledger of when a position was last touched; rewards switched off / on in the sequences; a budget variant that starts switched off",
  'C08-7': '(caught by the sibling check C10: two start instructions in one transaction)',
  'C08-8': "C12 'nobody' cells: the permissionless staked-settings propagation aimed at ordinary banks",
  'C19-4': 'fee wallet rotated by the global fee admin, group cache stale / propagated',
